@@ -95,7 +95,7 @@ def detect(sid, props):
     dest = os.path.join(SEEDED, sid)
     meta = json.load(open(os.path.join(dest, "meta.json")))
     if not props:
-        props = [meta["breaks"]]
+        props = meta.get("checks") or [meta["breaks"]]
     tier = os.environ.get("SEED_TIER", "quick")
     wt = "/tmp/sd/%s" % sid
     sh("mkdir -p /tmp/sd; git -C /repo worktree remove --force %s; rm -rf %s" % (wt, wt))
@@ -116,6 +116,9 @@ def detect(sid, props):
             meta.setdefault("detection", {})[p] = dict(exit=rc, violations=len(viol), secs=round(time.time() - t0, 1), tier=tier,
                                                        first=(viol[0] if viol else ""), summary=tail)
             print("%s vs %s: exit %d, %d VIOLATION lines (%.0fs) %s" % (sid, p, rc, len(viol), time.time() - t0, tail), flush=True)
+            drift = [l for l in out.splitlines() if l.startswith("MODEL-DRIFT")]
+            if drift:
+                meta["detection"][p]["model_drift"] = [d[:400] for d in drift[:4]]
             why = [l for l in out.splitlines() if l.startswith("  ") and "[" in l][:2]
             if why:
                 meta["detection"][p]["why"] = why
